@@ -538,6 +538,9 @@ RHS_KINDS = ["Axt", "Axt", "ones", "e-first", "e-last", "e-mid", "alt", "unit", 
 GUESS_ANY = ["zero", "negzero", "ones", "far"]
 GUESS_XT = ["exact", "but-first", "but-last", "but-mid", "double", "neg"]
 GUESS_NONFINITE = ["nan", "inf", "neginf-mixed", "huge", "subnormal"]
+# non-zero guesses that a CHEAP zero test takes for zero: entries summing to exactly 0 (+a, -a pairs), a zero first / last
+# component (seeded mutation C08-11: `x.sum() == 0.0` as the "guess is zero" shortcut); used by c08 block (2b) only
+GUESS_CHEAPZERO = ["sumzero", "first-zero", "last-zero"]
 SCALES = [(0, 0), (0, 0), (0, 0), (60, 0), (-60, 0), (0, 200), (0, -200), (60, -200), (-60, 200), (120, 120), (-120, -120)]
 
 def struct_rhs_guess(n, trip, rhs_kind, guess_kind, sa=0, sb=0):
@@ -569,6 +572,11 @@ def struct_rhs_guess(n, trip, rhs_kind, guess_kind, sa=0, sb=0):
     elif g in ("but-first", "but-last", "but-mid"):
         k = {"but-first": 0, "but-last": n - 1, "but-mid": n // 2}[g]
         x0 = list(xt); x0[k] = xt[k] + 3.0 * xs
+    elif g == "sumzero":
+        x0 = [(-1.0) ** i * float(i // 2 + 1) * xs for i in range(n)]
+        if n % 2 == 1: x0[n - 1] = 0.0
+    elif g == "first-zero": x0 = [xs] * n; x0[0] = 0.0
+    elif g == "last-zero": x0 = [xs] * n; x0[n - 1] = 0.0
     elif g == "double": x0 = [2.0 * v for v in xt]
     elif g == "neg": x0 = [-v for v in xt]
     elif g == "nan": x0 = [xs] * n; x0[n // 2] = float("nan")
